@@ -243,7 +243,7 @@ def main(argv: List[str]) -> int:
     tid = 0
     for seed, doc in ds:
         lines = Printer(Form(None, dict(CANON))).lines(doc)
-        lines = [l.replace('\x01', '').replace('\x02', '').replace('\x03', '') for l in '\n'.join(lines).split('\n')]
+        lines = [l.replace('\x01', '').replace('\x02', '').replace('\x03', '').replace('\x04', '') for l in '\n'.join(lines).split('\n')]
         labels = label(lines)
         for i, site in enumerate(labels + [{'ctx': 'top', 'kind': 'blank', 'feats': []}]):
             for fault in FAULTS:
